@@ -168,6 +168,13 @@ func findExtends(t *Tpl) *N {
 // runTpl renders template t in the current state; an extending template hands
 // over to its parent after registering its used blocks.
 func (e *ev) runTpl(t *Tpl) {
+	// macros are definitions of the template, wherever they are written at its
+	// top level: a call may precede the definition
+	for _, n := range t.Body {
+		if n.K == "macro" {
+			e.localMacros[n.S] = &macroDef{n: n, origin: t.Name}
+		}
+	}
 	ext := findExtends(t)
 	if ext == nil {
 		e.run(t.Body)
@@ -190,7 +197,7 @@ func (e *ev) runTpl(t *Tpl) {
 		switch n.K {
 		case "use":
 			e.use(n)
-		case "macro", "import", "from":
+		case "macro", "import", "from", "set", "setcap":
 			e.node(n)
 		}
 	}
@@ -905,6 +912,12 @@ func (e *ev) binary(x *E) Val {
 					found = true
 				}
 			}
+		case KStr:
+			// membership in a string is the substring test
+			if l.K != KStr {
+				leave("in: non-string needle in a string")
+			}
+			found = strings.Contains(r.S, l.S)
 		default:
 			leave("in: haystack is not an array")
 		}
